@@ -68,6 +68,13 @@ def impl_env(extra=None):
     env["PIQUASSO_VERIF"] = "1"
     env["TF_CPP_MIN_LOG_LEVEL"] = "3"
     env.setdefault("JAX_PLATFORMS", "cpu")
+    # several checks run side by side on 16 cores: keep each runner's thread pools small
+    # (a check that sweeps thread counts overrides these through extra_env)
+    for var, val in (("OMP_NUM_THREADS", "2"), ("OPENBLAS_NUM_THREADS", "2"),
+                     ("MKL_NUM_THREADS", "2"), ("NUMBA_NUM_THREADS", "4"),
+                     ("TF_NUM_INTRAOP_THREADS", "2"), ("TF_NUM_INTEROP_THREADS", "2"),
+                     ("XLA_FLAGS", "--xla_cpu_multi_thread_eigen=false intra_op_parallelism_threads=2")):
+        env.setdefault(var, val)
     if extra:
         env.update(extra)
     return env
